@@ -135,3 +135,131 @@ Proof.
       rewrite norm_app. unfold norm at 2. cbn [m_width]. rewrite Ew.
       rewrite Ho, Hb. replace (pp mod (8 * f) + w - w) with (pp mod (8 * f)) by lia. reflexivity.
 Qed.
+
+(* ------------------------------------------------------------------ unions *)
+
+(* c2mir's state between the members of a union: everything reset, only overall_size and used_size
+   accumulate; q = greatest end (in bits) so far *)
+Record UInv (s : fstate) (q : Z) : Prop := {
+  uinv_q : 0 <= q;
+  uinv_reset : bf_p s = false /\ offset s = 0 /\ prev_size s = 0 /\ bound_bit s = 0;
+  uinv_overall : 0 <= overall s;
+  uinv_used : used s = bytes_of_bits q }.
+
+Lemma ufl_union s q fsize a bits :
+  UInv s q -> pow2a a ->
+  let s1 := update_field_layout s fsize a bits in
+  offset s1 = 0 /\ bound_bit s1 = (if 0 <=? bits then bits else 0) /\
+  overall s1 = (if overall s <? fsize then fsize else overall s) /\ used s1 = used s.
+Proof.
+  intros [Hq (Hbf & Ho & Hps & Hb) Hov Hu] Ha. cbv zeta.
+  unfold update_field_layout. rewrite Hbf, Ho, Hps, Hb.
+  rewrite walk_from_zero by (split_a Ha; lia).
+  cbn [offset bound_bit overall used].
+  repeat split.
+  - destruct ((_ <? a) && (0 <=? bits)); destruct (0 <=? bits); lia.
+Qed.
+
+Lemma union_step_ok mk t ml sl s ls rs q al :
+  type_size ml = sv_size sl -> align ml = sv_align sl -> leaves ml = sv_leaves sl ->
+  member_ok mk (sv_size sl) (sv_align sl) ->
+  is_flex t = false ->
+  UInv s q ->
+  let '(s', ls', rs') := member_step true mk t ml (s, ls, rs) in
+  let sv' := sv_union_step mk t sl (mksv q al ls (map norm rs)) in
+  UInv s' (pos sv') /\ ls' = sleaves sv' /\ map norm rs' = smems sv'.
+Proof.
+  intros Hsz Hal Hlv (Hpos & Ha & Hmod & Hmk) Hfl HI.
+  unfold member_step. rewrite Hsz, Hal, ?Hlv.
+  replace (sv_size sl =? 0) with false by lia.
+  remember (sv_size sl) as sz. remember (sv_align sl) as a.
+  assert (Hshift : forall l, shift_leaves 0 l = l).
+  { intros l. unfold shift_leaves. rewrite <- (map_id l) at 2. apply map_ext.
+    intros [o b z]. unfold shift_leaf. cbn. f_equal. lia. }
+  destruct mk as [|w named|]; cbn [member_bits orb andb].
+  - (* named *)
+    cbn [Z.eqb andb].
+    destruct (ufl_union s q sz a (-1) HI Ha) as (Ho & Hb & Hov & Hu).
+    set (s1 := update_field_layout s sz a (-1)) in *.
+    cbn [Z.ltb Z.leb Z.compare]. rewrite Hfl.
+    unfold sv_union_step. rewrite sv_is_flex_eq, Hfl. cbn [pos salign sleaves smems].
+    rewrite <- ?Heqsz, <- ?Heqa, Ho.
+    destruct HI as [Hq (Hbf & Hoo & Hps & Hbb) Hovn Hus].
+    split; [|split].
+    + constructor; cbn [offset prev_size bound_bit bf_p overall used pos salign sleaves smems].
+      * lia.
+      * auto.
+      * destruct (overall s <? sz); lia.
+      * unfold bytes_of_bits in *. destruct (used s1 <? 0 + sz) eqn:E; lia.
+    + rewrite Hshift. reflexivity.
+    + rewrite norm_app. reflexivity.
+  - (* bit-field *)
+    destruct Hmk as (Hsa & Ha8 & Hw & Hnamed).
+    unfold sv_union_step. cbn [pos salign sleaves smems].
+    destruct (w =? 0) eqn:Ew.
+    + split; [|split].
+      * exact HI.
+      * reflexivity.
+      * rewrite norm_app. reflexivity.
+    + destruct (ufl_union s q sz a w HI Ha) as (Ho & Hb & Hov & Hu).
+      set (s1 := update_field_layout s sz a w) in *.
+      replace (w <? 0) with false by lia. replace (w <=? 0) with false by lia.
+      replace (0 <=? w) with true in Hb by lia.
+      rewrite Hfl, Ho, Hb.
+      destruct HI as [Hq (Hbf & Hoo & Hps & Hbb) Hovn Hus].
+      split; [|split].
+      * constructor; cbn [offset prev_size bound_bit bf_p overall used pos salign sleaves smems].
+        -- lia.
+        -- auto.
+        -- destruct (overall s <? sz); lia.
+        -- unfold bytes_of_bits in *. destruct (used s1 <? 0 + (w + 7) / 8) eqn:E; lia.
+      * cbn [pos salign sleaves smems].
+        replace (w - w) with 0 by lia. destruct named; [reflexivity | rewrite app_nil_r; reflexivity].
+      * cbn [pos salign sleaves smems]. rewrite norm_app. unfold norm at 2. cbn [m_width]. rewrite Ew.
+        replace (w - w) with 0 by lia. reflexivity.
+  - (* anonymous *)
+    cbn [Z.eqb andb].
+    destruct (ufl_union s q sz a (-1) HI Ha) as (Ho & Hb & Hov & Hu).
+    set (s1 := update_field_layout s sz a (-1)) in *.
+    cbn [Z.ltb Z.leb Z.compare]. rewrite Hfl.
+    unfold sv_union_step. rewrite sv_is_flex_eq, Hfl. cbn [pos salign sleaves smems].
+    rewrite <- ?Heqsz, <- ?Heqa, Ho.
+    destruct HI as [Hq (Hbf & Hoo & Hps & Hbb) Hovn Hus].
+    split; [|split].
+    + constructor; cbn [offset prev_size bound_bit bf_p overall used pos salign sleaves smems].
+      * lia.
+      * auto.
+      * destruct (overall s <? sz); lia.
+      * unfold bytes_of_bits in *. destruct (used s1 <? 0 + sz) eqn:E; lia.
+    + rewrite Hshift. reflexivity.
+    + rewrite norm_app. reflexivity.
+Qed.
+
+(* the flexible array member that ends a struct takes no space *)
+Lemma struct_step_flex t ml sl s ls rs p al :
+  type_size ml = sv_size sl -> align ml = sv_align sl -> leaves ml = sv_leaves sl ->
+  member_ok MNamed (sv_size sl) (sv_align sl) ->
+  is_flex t = true ->
+  Inv s p ->
+  let '(s', ls', rs') := member_step false MNamed t ml (s, ls, rs) in
+  let sv' := sv_struct_step MNamed t sl (mksv p al ls (map norm rs)) in
+  used s' = bytes_of_bits (pos sv') /\ ls' = sleaves sv' /\ map norm rs' = smems sv'.
+Proof.
+  intros Hsz Hal Hlv (Hpos & Ha & Hmod & _) Hfl HI.
+  unfold member_step. rewrite Hsz, Hal, Hlv.
+  replace (sv_size sl =? 0) with false by lia.
+  remember (sv_size sl) as sz. remember (sv_align sl) as a.
+  cbn [member_bits Z.eqb andb].
+  destruct (ufl_regular s p sz a HI Ha Hpos) as (Ho & Hb & Hbf & Hov & Hu & Hps).
+  set (s1 := update_field_layout s sz a (-1)) in *.
+  cbn [orb Z.ltb Z.leb Z.compare]. rewrite Hfl.
+  unfold sv_struct_step. rewrite sv_is_flex_eq, Hfl. cbn [pos salign sleaves smems].
+  rewrite <- ?Heqsz, <- ?Heqa, <- Ho.
+  destruct HI as [Hp [Ho1 [Ho2 Ho3]] Hpp [Hov1 Hov2] Hus].
+  assert (Hoff : bytes_of_bits p <= offset s1) by (rewrite Ho; apply align_up_mult; auto; unfold bytes_of_bits; lia).
+  split; [|split].
+  - cbn [used]. replace (offset s1 + 0) with (offset s1) by lia. rewrite bytes_of_bits_8.
+    destruct (used s1 <? offset s1) eqn:E; lia.
+  - reflexivity.
+  - rewrite norm_app. reflexivity.
+Qed.
